@@ -58,9 +58,13 @@ RawOK(attr, size, fill) ==
         (size = 8 /\ fill = "fam4") \/ (size = 20 /\ fill = "fam6")
   /\ attr = "REQUESTED-ADDRESS-FAMILY" => fill \in {"fam4", "fam6"}
 
+\* EVEN-PORT carries one flag, the R bit (the top bit of its only byte): set in "ones" and "rbit" (0x80, the reserved
+\* bits zero: what RFC 5766 clients send), clear in "zeros"; other fills set reserved bits, whose meaning is left free
+Reserve(attr, fill) == IF attr # "EVEN-PORT" THEN "free"
+                       ELSE IF fill \in {"ones", "rbit"} THEN "yes" ELSE IF fill = "zeros" THEN "no" ELSE "free"
 AttrRaw(attr, size, fill) ==
   /\ last' = [a |-> "AttrRaw", attr |-> attr, size |-> size, fill |-> fill]
-  /\ out' = {[k |-> "attr", ok |-> RawOK(attr, size, fill)]}
+  /\ out' = {[k |-> "attr", ok |-> RawOK(attr, size, fill), reserve |-> Reserve(attr, fill)]}
 
 \* value round trip: GetFrom(AddTo(v)) = v for the value classes of each attribute
 AttrRoundTrip(attr, v) ==
@@ -93,7 +97,7 @@ MCDeclared == {0, 1, 4, 5, 100, 65535}
 MCActual   == {0, 1, 3, 4, 5, 8, 99, 100, 101}
 MCAttrs    == {"CHANNEL-NUMBER", "LIFETIME", "XOR-PEER-ADDRESS", "XOR-RELAYED-ADDRESS", "DATA", "REQUESTED-TRANSPORT",
                "REQUESTED-ADDRESS-FAMILY", "EVEN-PORT", "RESERVATION-TOKEN", "CONNECTION-ID", "DONT-FRAGMENT"}
-MCFills    == {"zeros", "ones", "rand", "fam4", "fam6", "famBad"}
+MCFills    == {"zeros", "ones", "rand", "fam4", "fam6", "famBad", "rbit"}
 \* the harness sweeps all 65536 channel numbers against this set
 ASSUME PrintT("META " \o ToJson([Sys |-> "codec", Extra |-> [validlo |-> "16384", validhi |-> "32767"]]))
 ASSUME \A n \in 0..65535 : ValidChan(n) <=> (n >= 16384 /\ n <= 32767)
